@@ -393,7 +393,7 @@ func (p *bpeer) bodyBytesSeen(id int) int {
 func (p *bpeer) prepare(rq *rreq) {
 	sc := rq.script
 	var b bytes.Buffer
-	fmt.Fprintf(&b, "HTTP/1.1 %d %s\r\n", sc.status, http.StatusText(sc.status))
+	fmt.Fprintf(&b, "HTTP/1.1 %03d %s\r\n", sc.status, http.StatusText(sc.status))
 	for _, h := range sc.hdrs {
 		fmt.Fprintf(&b, "%s: %s\r\n", h[0], h[1])
 	}
@@ -699,6 +699,12 @@ func (r *relayRig) addReq(i int) {
 	}
 	// backend reply
 	sc := &bscript{status: []int{200, 200, 201, 404, 500, 302, 204, 304, 418}[st.Draw(9)]}
+	if pick(4) && r.hosts == 1 {
+		// (only without failure counting: the bad answer marks the backend as failing)
+		// a status line no server may send, which net/http's client accepts all the same
+		sc.status = []int{99, 0, 42}[st.Draw(3)]
+		r.c.Fault("backend-status-below-100")
+	}
 	sc.hdrs = [][2]string{{"Content-Type", "text/plain"}, {"X-Backend", fmt.Sprintf("b%d", i)}}
 	if pick(50) {
 		sc.hdrs = append(sc.hdrs, [2]string{"X-Dup", "first"}, [2]string{"X-Dup", "second"})
@@ -1009,6 +1015,13 @@ func (r *relayRig) judge() {
 			continue
 		}
 		resp := fin[0]
+		if sc.status < 100 {
+			// not a status that can be passed on: a gateway error is the answer (never a panic)
+			if resp.Status != 502 {
+				c.Violate("C04/status-changed", "backend-status-below-100", "request %d: the backend answered with status %03d, the client got %d, want 502", q.id, sc.status, resp.Status)
+			}
+			continue
+		}
 		if resp.Status != sc.status {
 			c.Violate("C04/status-changed", "", "request %d: backend said %d, client got %d", q.id, sc.status, resp.Status)
 			continue
